@@ -98,16 +98,16 @@ class MeshLine1(MeshSimplex, Mesh):
 
     def element_finder(self, mapping=None):
 
-        ix = np.argsort(self.p[0])
-        maxt = self.t[np.argmax(self.p[0, self.t], 0),
-                      np.arange(self.t.shape[1])]
+        lo = np.min(self.p[0, self.t], axis=0)
+        hi = np.max(self.p[0, self.t], axis=0)
+        order = np.argsort(lo)
 
         def finder(x):
-            xin = x.copy()  # bring endpoint inside for np.digitize
-            xin[x == self.p[0, ix[-1]]] = self.p[0, ix[-2:]].mean()
-            elems = np.nonzero(ix[np.digitize(xin, self.p[0, ix])][:, None]
-                               == maxt)[1].astype(np.int32)
-            if len(elems) < len(x):
+            # the element with the largest left end point not exceeding x;
+            # it contains x unless x is in a gap or outside of the mesh
+            k = np.searchsorted(lo[order], x, side='right') - 1
+            elems = order[np.maximum(k, 0)].astype(np.int32)
+            if (k < 0).any() or (x > hi[elems]).any():
                 raise ValueError("Point is outside of the mesh.")
             return elems
 
